@@ -13,8 +13,9 @@ from . import sched_common as sc
 
 ID = "C13"
 COQ_IMPORTS = "From FV Require Import Base OutputM Sched DelayLink."
-COQ_CHECK = "c13_check"
-COQ_MODEL_OBS = "c13_model"
+CASE_TIMEOUT = 60
+COQ_CHECK = "c13_check2"
+COQ_MODEL_OBS = None
 RULE = (
     "bare links Output >> chain >> Input with chains of 1-3 delay adapters (DelayFixed with delays zero / below / "
     "above / non-multiples of the steps, DelayToPull with 1-4 steps and extra delay, DelayToPush) mixed with Scale, "
@@ -64,12 +65,31 @@ CORPUS = [
 ]
 
 
+SCHED_CORPUS = [
+    # ring with the delay split over two adapters on one link (finding F1): the driver must assume the SUM
+    {"sched": {"comps": [{"kind": "T", "start": 0, "steps": [sc.DAY], "initpull": False, "nout": 1,
+                          "inputs": [{"src": [1, 0], "chain": [["fixed", sc.DAY // 2], ["pass"], ["fixed", sc.DAY // 2]]}]},
+                         {"kind": "T", "start": 0, "steps": [sc.DAY], "initpull": False, "nout": 1,
+                          "inputs": [{"src": [0, 0], "chain": []}]}],
+               "end": 6 * sc.DAY}},
+]
+
+
+def _gen_sched(rng):
+    """driver side: rings whose delays are split over several delay adapters per link"""
+    case = sc.gen_ring(rng, sufficient=True)
+    return {"sched": case}
+
+
 def generate(rng, tier):
     n = 600 if tier == "quick" else 12000
-    return list(CORPUS) + [_gen(rng) for _ in range(n)]
+    m = 80 if tier == "quick" else 1500
+    return list(CORPUS) + SCHED_CORPUS + [_gen(rng) for _ in range(n)] + [_gen_sched(rng) for _ in range(m)]
 
 
 def run_impl(case):
+    if "sched" in case:
+        return {"sched": schedlib.run_case(case["sched"])}
     t_init = T(case["init"])
     out = fm.Output(name="Out")
     inp = fm.Input(name="In")
@@ -108,11 +128,23 @@ def run_impl(case):
 
 
 def coq_case(case, obs):
+    if "sched" in case:
+        return C("CSched", sc.coq_case(case["sched"], obs["sched"]))
+    return C("CLink", _coq_case_link(case, obs))
+
+
+def coq_obs(case, obs):
+    if "sched" in case:
+        return C("OSched", sc.coq_obs(case["sched"], obs["sched"]))
+    return C("OLink", _coq_obs_link(case, obs))
+
+
+def _coq_case_link(case, obs):
     ops = [C("LPush", Z(o[1])) if o[0] == "push" else C("LPull", Z(o[1])) for o in case["ops"]]
     return P(L(sc.coq_adapter(a) for a in case["chain"]), Z(case["init"]), L(ops))
 
 
-def coq_obs(case, obs):
+def _coq_obs_link(case, obs):
     out = []
     for r in obs["res"]:
         if r is None:
@@ -166,6 +198,11 @@ def _expected(case):
 
 
 def monitor(case, obs):
+    if "sched" in case:
+        # "the shifted time is both what the driver assumes when scheduling and what is actually requested":
+        # the C02 monitor (lagging closure from the documented shifts + observed request times) and C04's verdict
+        from . import c02, c04
+        return c02.monitor(case["sched"], obs["sched"]) or c04.monitor(case["sched"], obs["sched"])
     if any(i is not None and i != case["init"] for i in obs["inits"]):
         return f"adapter start times {obs['inits']} differ from the link's info time {case['init']}"
     exp = _expected(case)
@@ -192,6 +229,8 @@ def monitor(case, obs):
 
 
 def nontrivial(case, obs):
+    if "sched" in case:
+        return any(sum(1 for a in i["chain"] if a[0] == "fixed") >= 2 for c in case["sched"]["comps"] for i in c["inputs"])
     exp = _expected(case)
     unclamped = any(e is not None and e[0] > case["init"] for e in exp)
     delays = [a for a in case["chain"] if a[0] != "pass"]
@@ -200,12 +239,20 @@ def nontrivial(case, obs):
 
 def distribution(cases, obss):
     from collections import Counter
-    return {"adapter_kinds": dict(Counter(a[0] for c in cases for a in c["chain"])),
+    nsched = sum(1 for c in cases if "sched" in c)
+    pairs = [(c, o) for c, o in zip(cases, obss) if "sched" not in c]
+    cases = [c for c, _ in pairs]
+    obss = [o for _, o in pairs]
+    return {"scheduler_cases": nsched, "adapter_kinds": dict(Counter(a[0] for c in cases for a in c["chain"])),
             "chain_lengths": dict(Counter(len(c["chain"]) for c in cases)),
             "pull_results": dict(Counter(r[1][0] for o in obss if "res" in o for r in o["res"] if r is not None))}
 
 
 def shrink_candidates(case):
+    if "sched" in case:
+        for c in sc.shrink_candidates(case["sched"]):
+            yield {"sched": c}
+        return
     ops = case["ops"]
     for i in range(len(ops) - 1, 0, -1):
         yield {"chain": case["chain"], "init": case["init"], "ops": ops[:i] + ops[i + 1:]}
